@@ -319,8 +319,13 @@ Definition spec_answer (incl : bool) (a : darray) (ws : list want) : answer (lis
 (** feature data: tagged -> the region on the feature array, untagged -> everything,
     indexed -> for a Tag everything, for a MultiTag slice i along the first dimension *)
 (** MultiTag, position index i: an index beyond the number of positions must be refused *)
+(** the multi-tag / array pairs the statement is about (checked BEFORE anything is judged, also for an empty
+    list of indices, where no single index would bring the check along) *)
+Definition mtag_array_dom (mt : mtag) (a : darray) : bool :=
+  mtag_shape_ok mt (zlen (a_dims a)) && (1 <=? zlen (a_dims a)) && dims_dom (a_dims a) (a_shape a).
+
 Definition spec_answer_mtag (incl : bool) (mt : mtag) (a : darray) (i : Z) : answer (list Z * list Z) :=
-  if negb (mtag_shape_ok mt (zlen (a_dims a)) && (1 <=? zlen (a_dims a)) && dims_dom (a_dims a) (a_shape a))
+  if negb (mtag_array_dom mt a)
   then Unconstrained
   else if (i <? 0) || (mtag_npos mt <=? i) then Refuse
   else spec_answer incl a (mtag_wants mt a i).
@@ -368,11 +373,12 @@ Definition spec_tag_feature (incl : bool) (t : tag) (f : feature) : answer view3
     indexed -> slice i along the first dimension; an index beyond the positions is refused *)
 Definition spec_mtag_feature (incl : bool) (mt : mtag) (f : feature) (i : Z) : answer view3 :=
   let a := f_data f in
-  match f_link f with
-  | LTagged => spec_mtag_view incl mt a i
-  | LUntagged => if (i <? 0) || (mtag_npos mt <=? i) then Refuse else whole_view a
-  | LIndexed => if (i <? 0) || (mtag_npos mt <=? i) then Refuse
-                else add_ids (spec_slice a i) (fun oc => view_ids (a_shape a) (fst oc) (snd oc))
+  match f_link f, n_shape (m_pos mt) with
+  | LTagged, _ => spec_mtag_view incl mt a i
+  | _, [] => Unconstrained                       (* a positions array without a first dimension is not judged *)
+  | LUntagged, _ => if (i <? 0) || (mtag_npos mt <=? i) then Refuse else whole_view a
+  | LIndexed, _ => if (i <? 0) || (mtag_npos mt <=? i) then Refuse
+                   else add_ids (spec_slice a i) (fun oc => view_ids (a_shape a) (fst oc) (snd oc))
   end.
 
 (** retrieval for a list of indices = the list of the single retrievals (an empty list = all positions) *)
@@ -390,8 +396,25 @@ Fixpoint answers {A} (l : list (answer A)) : answer (list A) :=
 Definition positions_or_all (mt : mtag) (idxs : list Z) : list Z :=
   match idxs with [] => ziota (mtag_npos mt) | _ => idxs end.
 
+(** retrieval (taggedData) for a list of indices; the empty list stands for all positions.  Outside the domain of
+    the multi-tag / array pair nothing is judged - whatever the list, also when it is empty. *)
 Definition spec_mtag_views (incl : bool) (mt : mtag) (a : darray) (idxs : list Z) : answer (list view3) :=
-  answers (map (spec_mtag_view incl mt a) (positions_or_all mt idxs)).
+  if negb (mtag_array_dom mt a) then Unconstrained
+  else answers (map (spec_mtag_view incl mt a) (positions_or_all mt idxs)).
 
+(** getOffsetAndCount for a list of indices: the list is taken as it is (an empty list gives no results);
+    getOffsetAndCount alone does not look at the data bounds, so a refusal is not demanded of it *)
+Definition spec_mtag_offcnts (incl : bool) (mt : mtag) (a : darray) (idxs : list Z) : answer (list view3) :=
+  if negb (mtag_array_dom mt a) then Unconstrained
+  else answers (map (fun i => match spec_mtag_view incl mt a i with Refuse => Unconstrained | x => x end) idxs).
+
+(** feature data for a list of indices: a tagged feature is cut like a reference (domain of the FEATURE array);
+    untagged / indexed features only need a positions array that has a first dimension *)
 Definition spec_mtag_features (incl : bool) (mt : mtag) (f : feature) (idxs : list Z) : answer (list view3) :=
-  answers (map (spec_mtag_feature incl mt f) (positions_or_all mt idxs)).
+  match f_link f with
+  | LTagged => spec_mtag_views incl mt (f_data f) idxs
+  | _ => match n_shape (m_pos mt) with
+         | [] => Unconstrained
+         | _ => answers (map (spec_mtag_feature incl mt f) (positions_or_all mt idxs))
+         end
+  end.
